@@ -35,6 +35,12 @@ let handle (toks : string list) : string =
            if cls <> [] then "chk " ^ String.concat "," cls ^ start_kind ^ (if model <> impl then " (and model differs)" else "")
            else if model <> impl then "diff session_trace model=" ^ model else "ok nt"
        | _ -> "bad line")
+  | "R" :: _ :: pairs ->
+      (* concurrent run: every delivered session must have end <= the watermark being handled *)
+      let rec ok = function
+        | w :: e :: r -> (int_of_string e <= int_of_string w) && ok r
+        | [] -> true | _ -> false in
+      if ok pairs then "ok nt" else "chk early_delivery_concurrent"
   | _ -> "bad line"
 
 let () = Registry.register "C10" handle
